@@ -143,8 +143,10 @@ impl ExprNodeId {
             | Expr::FieldAccess(e, _)
             | Expr::UniOp(_, e)
             | Expr::Paren(e)
-            | Expr::Lambda(_, _, e)
             | Expr::Feed(_, e) => conv(&e),
+            Expr::Lambda(params, _, e) => {
+                params.iter().any(|p| conv_opt(&p.default_value)) || conv(&e)
+            }
             Expr::ArrayAccess(e1, e2) | Expr::BinOp(e1, _, e2) | Expr::Assign(e1, e2) => {
                 conv(&e1) || conv(&e2)
             }
